@@ -419,6 +419,7 @@ class World:
         self.keep = []         # keep helper objects (System, Alignment) alive
         self.em = None
         self.unexpected = []   # exceptions that look like in-place mutation of inputs
+        self.any_error = set() # op indexes where the CLASS of the exception is not compared with the model (both must fail)
         self._gparent = {}     # union-find over gro provenance classes (`a + b` of two AtomGro objects
                                # builds a Residue out of the operands themselves: the classes merge)
 
@@ -553,7 +554,7 @@ def compare_with_model(ctx, case, world, toks, tol, label, extra_cb=None, stop=N
         cur.deltas(snap)
         if stop is not None and stop():
             return True
-        if mst != st:
+        if mst != st and not (k in world.any_error and st != "ok" and mst != "ok"):
             ctx.disagree(case, f"{label}: outcome of op {k} ({world.desc[k]})", st, mst)
             return False
         if len(snap) != len(want):
